@@ -35,4 +35,13 @@ PROPS = {
         "level_text": "Bounded symbolic verification: for each shape in the bound the result of each operation is shown equal to the reference model for all element values (DAG identity or z3), from an arbitrary starting state, so operation histories of any length are covered by induction on the state (rows, cols, entries).",
         "level_note": "Shapes are enumerated, values are universally quantified. The private invariant mat.len() == rows*cols is observed only through numel() and by reading every (i,j). Trusted: rustc monomorphisation, symcore, retype.py for the norms, z3.",
     },
+    "C04": {
+        "explanation": "Banded::<Sym> (generic code of the current tree) for every (n, m1, m2) in the bound, each in-band entry its own symbol, every padding slot of the compact storage holding the symbol `pad` (reachable through Banded::new(value)). Index map, clone, negation, + - (owned/borrowed), scalar * / += -= *= /=, constant += -=, fill, fill_band for every band and the matrix-vector product are compared with the dense reference; det() must equal the cofactor determinant of the dense twin for ALL in-band values (singular included) with no feasible zero divisor; under det != 0 solve() has no feasible zero divisor on any pivot path, returns B*x = b, every elimination multiplier is bounded by one (pivoting by magnitude) and no result term mentions `pad`.",
+        "functions": ["Banded::{new,fill,fill_band,det,solve,decompose,clone,size,size_below,size_above}", "Index/IndexMut<(usize,usize)> for Banded", "Neg/Add/Sub/Mul/Div and *Assign impls for Banded", "&Banded * &Vector", "Matrix::{fill,fill_col,swap_elem} as used by the compact storage"],
+        "bounds": {"quick": "index map / arithmetic / mat-vec: all n = 1..6, all 0 <= m1,m2 < n; solve and det: all (m1,m2) at n <= 3 plus m1 <= 1 (any m2) at n = 4; all real values", "thorough": "algebra: n = 1..10 all bandwidths; solve/det additionally m1 <= 1, m2 <= 2 at n = 5, 6 and m1 = 2 at n = 4"},
+        "outside": "solve/det beyond those (n, m1); f64 rounding; Complex<f64> elements; padding slots with pairwise different values (not constructible through the public API)",
+        "assumptions": COMMON_ASSUME + ["solve: det(dense twin) != 0; det: none"],
+        "level_text": "Bounded symbolic verification: shapes and bandwidths enumerated exhaustively inside the bound, all in-band and padding values universally quantified; agreement with the dense reference is an SMT obligation on every pivot path.",
+        "level_note": "Exact-real semantics; pivot search makes full-bandwidth n = 4 as hard as dense n = 4, so solve/det are bounded as stated. Trusted: rustc monomorphisation, symcore, z3.",
+    },
 }
